@@ -9,7 +9,7 @@ use crate::prng::Rng;
 use crate::runner::{self, Flags};
 use std::collections::BTreeSet;
 
-const LARGE_QUICK: u64 = 6;
+const LARGE_QUICK: u64 = 8;
 const LARGE_THOROUGH: u64 = 200;
 
 pub fn def() -> CheckDef {
@@ -17,7 +17,7 @@ pub fn def() -> CheckDef {
         id: "C03",
         level: "exploration",
         cases: |t| match t {
-            Tier::Quick => 6_000 + LARGE_QUICK,
+            Tier::Quick => 20_000 + LARGE_QUICK,
             Tier::Thorough => 300_000 + LARGE_THOROUGH,
         },
         gen,
@@ -37,6 +37,23 @@ pub fn flags() -> Flags {
 fn large_case(rng: &mut Rng, idx: u64) -> Case {
     // idx 0: V3 DIFAT; others: several FAT / dir / MiniFAT sectors
     let version = if idx % 3 == 2 { 4 } else { 3 };
+    if idx == 7 || (idx > 8 && idx % 16 == 7) {
+        // TWO DIFAT sectors in V3: > 109 + 127 FAT sectors = > 30208 sectors (~15.5 MB)
+        let mut c = Case::new("C03", "large-2-difat", 3);
+        let mut nonce = 8000u32;
+        c.ops.push(Op::WriteWhole { path: "/a".into(), len: 70, nonce: 1 });
+        c.ops.push(Op::HCreate { h: 0, path: "/big".into() });
+        for target in [7_000_000u64, 7_400_000, 15_300_000, 15_600_000 + rng.below(300_000)] {
+            c.ops.push(Op::HSetLen { h: 0, n: target });
+            nonce += 1;
+            c.ops.push(Op::HSeek { h: 0, whence: crate::ops::Whence::End, off: -500, uoff: 0 });
+            c.ops.push(Op::HWriteAll { h: 0, len: 500, nonce });
+            c.ops.push(Op::HFlush { h: 0 });
+        }
+        c.ops.push(Op::HDrop { h: 0 });
+        c.ops.push(Op::WriteWhole { path: "/b".into(), len: 4096, nonce: 2 });
+        return c;
+    }
     let mut c = Case::new("C03", "large", version);
     c.bufsize = *rng.pick(gen::BUFSIZES);
     let mut nonce = 7000u32;
